@@ -176,6 +176,8 @@ def run(facts, rep, tier):
     if rep.floor("C03.D4", "enum emitter", 1 if "enum" in ems else 0, 1):
         ee = ems["enum"]
         mt = [n for n, _ in nodes(ee.h["body"], "match") if n.get("src") == "normal" and "EnumTagType" in c.ty(n.get("scty"))]
+        # the table that chooses the representation attribute is the one whose arms push serde templates
+        mt = [n for n in mt if any(quotes_in(facts, a["body"]) for a in n["arms"])] or mt
         if rep.floor("C03.D4", "match on the tag type", len(mt), 1):
             got = {}
             cne = ee.canon()
